@@ -199,16 +199,52 @@ class NoiseExpression(Expr):
         ret.units = units
         return ret
 
-    def __div__(self, x):
+    def __truediv__(self, x):
         if isinstance(x, NoiseExpression) and self.nid != x.nid:
             raise ValueError('Cannot divide %s and %s' % (self, x))
-        return self.__class__(self.expr / x, nid=self.nid)
 
-    def __rdiv__(self, x):
-        return self.__class__(x / self.expr, nid=self.nid)
+        x = self.__compat__(x)
+        cls, units = self._product(x, self._div_mapping, '/')
+        xval = x.sympy if isinstance(x, Expr) else x
+        ret = cls(self.sympy / xval, nid=self.nid)
+        ret.units = units
+        return ret
 
-    __truediv__ = __div__
-    __rtruediv__ = __rdiv__
+    def __rtruediv__(self, x):
+        # x is not a noise expression (otherwise __truediv__ is used)
+        if not isinstance(x, Expr):
+            cls, units = self._quotient_of(None)
+        else:
+            cls, units = self._quotient_of(x)
+        xval = x.sympy if isinstance(x, Expr) else x
+        ret = cls(xval / self.sympy, nid=self.nid)
+        ret.units = units
+        return ret
+
+    def _quotient_of(self, x):
+        """Return class and units for x / self."""
+
+        xquantity = 'constant'
+        xunits = 1
+        if x is not None:
+            xunits = x.units
+            if x.quantity != 'undefined':
+                xquantity = x.quantity
+        yquantity = self.quantity
+        if yquantity == 'undefined':
+            yquantity = 'constant'
+
+        key = (xquantity, yquantity)
+        if key not in self._div_mapping:
+            raise ValueError('Cannot determine %s / %s(%s) since the units of the result are unsupported.' %
+                             (x, self.__class__.__name__, self))
+        quantity = self._div_mapping[key]
+        if quantity == 'constant':
+            quantity = 'undefined'
+        return self._class_by_quantity(quantity), xunits / self.units
+
+    __div__ = __truediv__
+    __rdiv__ = __rtruediv__
 
     def __eq__(self, x):
         try:
